@@ -11,17 +11,18 @@ import ast, json, os, sys
 sys.path.insert(0, os.path.dirname(os.path.dirname(os.path.abspath(__file__))))
 from sa.index import Index, pick_def
 from sa.models import Models
-from rules.common import func_decl, model_decl
+from rules.common import func_decl, model_decl, module_constants
 
 root = sys.argv[1] if len(sys.argv) > 1 else "/repo"
 ix = Index(root)
 ms = Models(ix)
-out = {"functions": {}, "models": {}}
+out = {"functions": {}, "models": {}, "constants": {}}
 for m in ix.modules.values():
     for name, defs in m.defs.items():
         fns = [d for d in defs if isinstance(d, ast.FunctionDef)]
         if fns:
             out["functions"][f"{m.name}:{name}"] = func_decl(ix, m, pick_def(fns), None)
+    out["constants"].update(module_constants(m))
     for ci in m.classes.values():
         for mn, fns in ci.methods.items():
             out["functions"][f"{m.name}:{ci.name}.{mn}"] = func_decl(ix, m, pick_def(fns), ci)
@@ -29,4 +30,4 @@ for m in ix.modules.values():
             out["models"][ci.qual] = model_decl(ix, ms, ci)
 dst = os.path.join(os.path.dirname(os.path.dirname(os.path.abspath(__file__))), "sa", "pinned_decls.json")
 json.dump(out, open(dst, "w"), indent=0, sort_keys=True)
-print(len(out["functions"]), "functions,", len(out["models"]), "models ->", dst)
+print(len(out["functions"]), "functions,", len(out["models"]), "models,", len(out["constants"]), "constants ->", dst)
